@@ -33,7 +33,7 @@ Spec == Init /\ [][Next]_vars
 (* Construction *)
 
 \* 0-based positions of `bit`
-Occ(bit) == [q \in 1..Len(Positions(B, bit)) |-> Positions(B, bit)[q] - 1]
+Occ(bit) == LET P == Positions(B, bit) IN [q \in 1..Len(P) |-> P[q] - 1]
 
 Chunk(P, c) == SubSeq(P, (c - 1) * BLOCK + 1, MinI(c * BLOCK, Len(P)))
 NChunks(P) == (Len(P) + BLOCK - 1) \div BLOCK
